@@ -344,6 +344,22 @@ def call(ev, name, args, kwargs, lineno, env):
         if kwargs.get("copy", True) is False:
             raise Unsupported("np.nan_to_num(copy=False)")
         return m1(lambda x: ite(nan_of(x), 0, val_of(x)) if isinstance(x, NS) else x)
+    if name == "repeat":
+        vals, cnt = args[0], args[1]
+        if is_array(vals) and is_array(cnt) and not isinstance(vals, Comp) and not isinstance(cnt, Comp) and cnt.kind == "i":
+            # element k of the result belongs to the entry owner(k) of `vals`:  psum(owner k) <= k < psum(owner k + 1)
+            ev.same_len(vals.n, cnt.n, lineno)
+            ps = prefix_sum(ev, cnt)
+            own = z3.Function("owner!%d" % next(V._counter), z3.IntSort(), z3.IntSort())
+            k = fresh("k")
+            total = ps(cnt.n)
+            ev.path.facts.append(z3.ForAll([k], z3.Implies(z3.And(k >= 0, k < total), z3.And(
+                own(k) >= 0, B(compare("<", own(k), cnt.n)), ps(own(k)) <= k, k < ps(own(k) + 1)))))
+            vf = vals.f
+            out = Arr(total, lambda j: vf(own(V.I(j))), vals.kind)
+            out.repeat_of = (vals, cnt, own)
+            return out
+        raise Unsupported("np.repeat with these operands (line %d)" % lineno)
     raise Unsupported("numpy function %s (line %d)" % (name, lineno))
 
 
